@@ -4,6 +4,7 @@
 Metamorphic relations between the three parse entry points of every class, plus — for stream framing units — the
 relation parse(buf) == parse(buf[:n]) == parse(buf[:n] + suffix) and an independent header reader `declared()`.
 """
+import os
 import random
 import time
 
@@ -300,6 +301,9 @@ def run(ctx):
     budget_s = 120 if ctx.quick else 1500
     jobs = [(index, ctx.derive_seed('shard', index), per_target, budget_s) for index in range(N_SHARDS)]
     stats = pool.run_shards(_shard, jobs)
+    if not ctx.quick:
+        from vf.fuzz import campaign  # pylint: disable=import-outside-toplevel
+        campaign.run(ID, ctx.derive_seed, stats, runs=int(os.environ.get('VERIF_ATHERIS_RUNS', '150000')))
     stats.extra['framing_units'] = sorted(_short(k) for k in _units())
     return stats
 
